@@ -4,7 +4,7 @@ SPEC = dict(
     observers=[dict(cmd="obs_cluster", imports=["Model.Cluster"], case_type="Cluster.case", check="Cluster.check_case",
                     args=["-prop", "C20", "-kinds", "multi"],
                     n={"quick": 500, "thorough": 15000}, shard=100)],
-    rule="ENUMERATED on every run (74 cases, independent of the seed): two-slot batches and MULTI…EXEC batches with commands before and after the block, the scripted member at every position (EXEC included) x MOVED / ASK / TRYAGAIN x followed by a value / a MOVED. RANDOM in addition: generated batches of 1-8 GET/SET over 1-4 slots on a 2-4 node simulated cluster, 40% with one MULTI…EXEC block (commands before, "
+    rule="ENUMERATED on every run (202 cases, independent of the seed): two-slot batches and MULTI…EXEC batches with commands before and after the block, the scripted member at every position (EXEC included) x MOVED / ASK / TRYAGAIN x followed by a value / a MOVED; plus 128 redirect-then-retry histories (see C28). RANDOM in addition: generated batches of 1-8 GET/SET over 1-4 slots on a 2-4 node simulated cluster, 40% with one MULTI…EXEC block (commands before, "
          "inside and after it), slots moved or put in migration after the client learnt the topology, per-command scripted replies "
          "(MOVED / ASK to arbitrary nodes, TRYAGAIN, CLUSTERDOWN, LOADING, errors; EXEC refused with MOVED / ASK at execution time), "
          "MaxMovedRedirections 0-2, DisableRetry, RetryDelay tables; non-trivial when a command was sent more than once or the batch was "
